@@ -147,8 +147,10 @@ func getReply(g *olric.GetResponse, err error) Reply {
 		return Reply{Ret: "none", TTLms: -1}
 	}
 	b, err := g.Byte()
+	if errors.Is(err, olric.ErrNilResponse) {
+		return Reply{Ret: "none", TTLms: -1} // GetPut with no previous value
+	}
 	if err != nil {
-		// stored as a non-byte value (counter): render through String
 		return Reply{Ret: "err", Err: err.Error(), TTLms: -1}
 	}
 	return Reply{Ret: "val", V: string(b), TTLms: g.TTL()}
